@@ -74,7 +74,7 @@ class Extractor:
             return "|".join(sorted(fw))
         # an element handed out by an iterator (`for x in it`, or the parameter of a closure given to `map`) is not
         # told apart from a computed value: which of the two forms a loop takes is a matter of style
-        out = {x for x in out if x not in ("call:next", "call:next_back")}
+        out = {x for x in out if x not in ITEM_SOURCES}
         return "|".join(sorted(out)) or "computed"
 
     def _agg_index(self):
@@ -495,6 +495,11 @@ class Extractor:
 
 ONCE_RECEIVERS = ("std::option::Option", "core::option::Option", "std::result::Result", "core::result::Result",
                   "core::bool::", "std::bool::", "core::bool::<impl bool>")
+
+
+ITEM_SOURCES = {"call:" + n for n in ("next", "next_back", "into_iter", "iter", "iter_mut", "zip", "enumerate", "rev", "map",
+                                        "filter", "filter_map", "skip", "take", "chain", "peekable", "cloned", "copied",
+                                        "into_par_iter", "par_iter", "values", "keys", "into_values", "into_keys", "drain")}
 
 
 def pat_names(p, out=None):
